@@ -249,7 +249,12 @@ func (k *Keys) ReadKey() (key rune, isAbort bool) {
 
 	case k.waiting:
 		buf := <-k.keysOnce
-		key = []rune(string(buf))[0]
+
+		// Only the first key is ours: the others read
+		// along with it stay in the stack, to be used next.
+		char, size := utf8.DecodeRune(buf)
+		key = char
+		k.buf = append(k.buf, buf[size:]...)
 	default:
 		buf, err := k.readInputFiltered()
 		if err != nil || len(buf) == 0 {
@@ -258,7 +263,9 @@ func (k *Keys) ReadKey() (key rune, isAbort bool) {
 			return inputrc.Esc, true
 		}
 
-		key = []rune(string(buf))[0]
+		char, size := utf8.DecodeRune(buf)
+		key = char
+		k.buf = append(k.buf, buf[size:]...)
 	}
 
 	// Always mark those keys as matched, so that
